@@ -16,7 +16,8 @@ claim("C06", "type-specialised SCCP over go/ssa on all ordered pairs of value ty
       "(@neg: x) wrapper refinement of each - T.Less(U) and U.Less(T) fold to constants of which exactly one is true, Equal folds to false, the induced "
       "order on types is transitive and agrees with Kind(); no same-kind Less definitely panics; (R06b) Kind() constants distinct and registered once; "
       "(R06c) < > <= >= (and negations) in compareOps match the truth table of a strict total order; (R06d) every sort/ordered-range comparator "
-      "decides through Value.Less in the forward direction; (R06e) max/min reducers pick by Less in the right direction. Within-kind comparisons "
+      "decides through Value.Less in the forward direction; (R06e) max/min reducers pick by Less in the right direction; (R06f) the cached attribute-name order that GenericTuple.Less and Format walk is "
+      "only ever stored sorted. Within-kind comparisons "
       "(value-level, e.g. Relation.Less with differing headings) are not decided.", NOTE, "DESIGN.md §3 C06")
 
 claim("C01", "type-specialised SCCP over every pair of set representations (dispatch totality), symbolic bucket-routing agreement, rows-provenance rule over go/ssa",
@@ -24,7 +25,8 @@ claim("C01", "type-specialised SCCP over every pair of set representations (disp
       "SymmetricDifference (13x13 representation pairs), PowerSet, With/Without/Has (13x19) definitely panics, and the panicking "
       "UnionSet.unionSetSubsetBucket is unreachable; (R01b) element-type bucket == subset bucket of the set type its builder constructs, sets "
       "route to the generic bucket; (R01c) adding a foreign element to String/Bytes/Array/Dict always goes through toUnionSetWithItem (never "
-      "dropped); (R01d) stored rows of two relations are only combined under explicit column projectors. Member arithmetic inside one "
+      "dropped); (R01d) stored rows of two relations are only combined under explicit column projectors; (R03a, shared with C03) no operator writes "
+      "into storage an operand or an earlier result still reaches (a result that overwrites its sibling makes a later union/difference wrong). Member arithmetic inside one "
       "representation (Count, Where, Has on colliding keys) is value-level and not decided.", NOTE, "DESIGN.md §3 C01")
 
 claim("C03", "interprocedural slice/map ownership analysis over go/ssa (flow-sensitive local cells, per-field result summaries, VTA-resolved calls)",
@@ -74,7 +76,8 @@ claim("C10", "grammar/table agreement, inhabited-type analysis of unchecked asse
       "structural necessary conditions exactly: (R10a) no grammar token lacks a table entry at an unguarded lookup; (R10b) no unchecked assertion to "
       "a type that no value ever has; (R10c) no interface method of a value type is an unconditional panic (24 known stubs on function values); "
       "(R10e) every goroutine root that gRPC or `go` hands us crosses a recover before compiling/evaluating client text; (R10f) no lost wake-up on "
-      "the import cache's condition variable. Index-out-of-range, nil dereference, recursion depth and termination are not decided.", NOTE, "DESIGN.md §3 C10")
+      "the import cache's condition variable; plus the engine/import-cache liveness rules shared with C16/C17 (R17a self-communication, R17d map-miss "
+      "dereference, R17e recover on the actor, R16d re-entrant wait). Index-out-of-range, nil dereference, recursion depth and termination are not decided.", NOTE, "DESIGN.md §3 C10")
 
 claim("C15", "dominance of recorders over readers, flag-fixed reachability of host effects along all call paths from Compile, sibling agreement of archive-location derivations",
       "Decides structural necessary conditions of bundle = sources: (R15a) every import read is either bundle-run-only or dominated by its recorder "
@@ -99,14 +102,15 @@ claim("C09", "error-discipline and merge-discipline checks over every Pattern.Bi
 claim("C04", "symbolic evaluation of the join operators' combine/partitionNames function literals in a 3-region heading algebra over all 8 worlds; constant-folded switch exhaustiveness",
       "Decides that the two implementations of every join operator agree with each other and with the operator's glyph on the output heading "
       "(R04a: 8 operators x 8 worlds, isSubset guards evaluated per world, outputs disjoint) and that the positional join's 3-bit mode switch "
-      "handles all 8 modes (R04b). Also served by C01/R01d (rows of two relations only meet under projectors). Row contents, column permutations "
+      "handles all 8 modes (R04b). R01d (rows of two relations only meet under projectors) and R03a (no join writes a heading or row store an "
+      "operand still reaches) run under this property too. Row contents, column permutations "
       "inside the positional joins, nest/unnest inversion and rank values are value-level and not decided.", NOTE, "DESIGN.md §3 C04")
 
 claim("C12", "table extraction and agreement (printer escape table vs reader escape switch, printer identifier pattern vs grammar IDENT), transitive field-read sets of Equal vs Format",
       "Decides codec agreement at the table level: (R12a) every backslash-letter the printer emits is mapped back to the same character by the "
       "reader, and the reader handles \\\\, both quotes and \\x; (R12b) for all 18 value types, every field Equal reads is read by Format/String "
       "(Bytes.offset is not: known finding); (R12c) names are printed unquoted only when they match the grammar's IDENT (pattern equality; no unicode "
-      "classification). The escape reader's index arithmetic (\\xNN off-by-one), number formatting and nesting are value-level and not decided.", NOTE, "DESIGN.md §3 C12")
+      "classification); (R07b, R06f) printers emit members in a sorted order. The escape reader's index arithmetic (\\xNN off-by-one), number formatting and nesting are value-level and not decided.", NOTE, "DESIGN.md §3 C12")
 
 claim("C13", "TS-SCCP of the encoder under each (strict flag, value type) context with data-dependence of the result on the value; shape descriptors of the wire-format switch",
       "Decides two information-loss conditions of the codecs: (R13a) for no data value type with more than one inhabitant does FromArrai (strict or "
@@ -118,21 +122,25 @@ claim("C13", "TS-SCCP of the encoder under each (strict flag, value type) contex
 claim("C05", "TS-SCCP dispatch totality of CallAll/Concatenate over all representation pairs, hole-guard sibling check in the >> evaluator, store-read-implies-offset-read rule over go/ssa",
       "Decides structural necessary conditions of keyed-collection semantics: (R05a) no CallAll(representation x argument type) or Concatenate(pair) "
       "cell definitely panics; (R05b) each branch of the >> / >>> evaluator that maps over a holey store tests the hole marker before handing the "
-      "element to the function; (R05c) a function that builds a sequence from another operand's backing store also reads that operand's offset. "
+      "element to the function; (R05c) a function that builds a sequence from another operand's backing store also reads that operand's offset; "
+      "(R03a) no keyed-collection operator writes through a shared store. "
       "Which value is returned for a key, the ?: fallback classification and shift arithmetic are value-level and not decided.", NOTE, "DESIGN.md §3 C05")
 
 claim("C02", "construction-discipline checks over go/ssa (raw re-slices of holey stores, uncanonicalised tuple allocation), table agreement of the sugar-shape switches, TS-SCCP Equal symmetry, provenance of the positional row digest",
       "Extensional equality rests on 'one denotation, one representation'; the check decides the construction discipline that maintains it: (R02a) no "
       "String/Array is built around a raw re-slice of another value's store outside a trimming constructor; (R02b) a tuple whose name set changed is "
       "returned through a canonicaliser (GenericTuple.With/Without are not: known findings); (R02c) Equal is symmetric for all 153 type pairs; (R02d) "
-      "the three shape-specialising switches name all four sugar shapes; (R02e) the layout-sensitive row digest is only taken of canonicalRelation(). "
+      "the three shape-specialising switches name all four sugar shapes; (R02e) the layout-sensitive row digest is only taken of canonicalRelation(); "
+      "(R01d, R03a) shared with C01/C03. "
       "Extensionality itself and Equal within one type are not decided.", NOTE, "DESIGN.md §3 C02")
 
 claim("C07", "effect analysis of printing paths (unordered sources must be ordered before they reach a writer), provenance of relation headings, collision-test rule for the slot builders",
       "Decides structural necessary conditions of seed-independence: (R07b) in the call closure of every Format/String method and the bundle config "
       "printer, a hash-ordered enumeration (Enumerator/Range/DictEnumerator, Go map range, Names.Names()) occurs only in functions that sort what they "
       "collect or feed order-insensitive aggregates; (R07c) relation headings built from name sets are sorted; (R07a) the index-slot builders "
-      "asArray/asString/asBytes overwrite colliding slots in enumeration order (genuine, known findings). A full order-sensitivity classification of all "
+      "asArray/asString/asBytes overwrite colliding slots in enumeration order (genuine, known findings); (R06d) every sort comparator decides "
+      "through Value.Less; (R06f) the tuple name-order cache is only ever stored sorted; (R02e) equal relations hash equally whatever their column "
+      "layout (otherwise set de-duplication depends on the per-process seed). A full order-sensitivity classification of all "
       "120 unordered loops, determinism of dependencies and of float reductions are not decided.", NOTE, "DESIGN.md §3 C07")
 
 for pid in []:
